@@ -232,6 +232,10 @@ def check_C05(rep, prog, tier):
     gc_obligation(rep, prog, tier, tier_deadline(tier, 420, 2700), 'C05')
 
 
+def spec_lock(b):
+    return bool((b.get('spec') or {}).get('lock'))
+
+
 def gc_obligation(rep, prog, tier, dl, prop):
     """delete_bands / gc over symbolic archives (C05; also the 'only an explicit delete or gc removes files, and then only ...' clause of C07)."""
     from .harness import gc as G
@@ -258,6 +262,7 @@ def gc_obligation(rep, prog, tier, dl, prop):
             probs = ' '.join(b['problems'])
             kind = 'kept-band-loses-blocks' if 'still listed complete but its blocks' in probs else \
                 'half-deleted-band-still-complete' if 'its head or index hunks are gone' in probs else \
+                'removes-foreign-lock' if 'held by someone else' in probs else \
                 'removes-unrequested' if 'neither a requested band' in probs else \
                 'garbage-remains' if 'unreferenced blocks remain' in probs else \
                 'dry-run-mutates' if 'dry run' in probs else 'other'
@@ -277,7 +282,8 @@ def gc_obligation(rep, prog, tier, dl, prop):
             what_ = 'delete_bands panics: %s (fault %s)' % (b.get('msg'), sc.get('fired'))
         else:
             scan = out.get('scan') or {}
-            reproduced = bool(scan.get('damaged') or scan.get('broken_complete_bands')) if 'still listed complete' in ' '.join(b['problems']) else \
+            reproduced = (spec_lock(b) and scan.get('lock_left') is False) if 'held by someone else' in ' '.join(b['problems']) else \
+                bool(scan.get('damaged') or scan.get('broken_complete_bands')) if 'still listed complete' in ' '.join(b['problems']) else \
                 (out.get('result') == b.get('result') or str(out.get('result', '')).startswith('Err') == str(b.get('result')).startswith('Err'))
             what_ = 'delete_bands(%s, dry_run=%s) on %s with %s: %s' % (b['delete'], b['dry_run'], json.dumps(b['spec']), sc.get('fired'), '; '.join(b['problems']))
         rep.violation(key, what_, path_, reproduced)
@@ -1072,7 +1078,9 @@ def _decoded_native(b):
         if e.get('naddr') == 2:
             ent['addr_raw']['second'] = {'start': min(max(int(m.get('wstart2', 0)), 0), U64), 'len': min(max(int(m.get('wlen2', 0)), 0), U64)}
     sc = {'kind': 'restore_raw', 'restore_band': 0, 'raw_entries': True,
-          'bands': [{'band': 0, 'closed': True, 'band_format_version': b.get('version', '0.6.3'), 'entries': [
+          'bands': [{'band': 0, 'closed': True, 'band_format_version': b.get('version', '0.6.3'),
+                     'tail_count': ([0, 1, 2, 9, (1 << 64) - 1][min(max(int(m.get('wtail_count_i', 1)), 0), 4)] if m.get('wtail_count_present', True) else None),
+                     'entries': [
               {'path': '/', 'kind': 'Dir', 'mode': 0o755, 'mtime': [1, 0]}, ent,
               {'path': '/n', 'kind': 'File', 'size': 10, 'class': 5, 'mode': 0o644, 'mtime': [3, 0]}]}]}
     if b.get('op') == 'backup':
